@@ -2,6 +2,7 @@ package checks
 
 import (
 	"bytes"
+	"encoding/json"
 	"fmt"
 	"os"
 	"testing"
@@ -63,3 +64,5 @@ func firstDiff(a, b []byte) int {
 	}
 	return n
 }
+
+func jsonMarshal(v any) ([]byte, error) { return json.Marshal(v) }
